@@ -500,6 +500,9 @@ func (modComp) Exec(c *wire.Case, w *wire.Writer) {
 						break
 					}
 				}
+			case "life":
+				// the unit's HP is set (0 kills it: nothing revives here); its stats go on being its own plus its attached instances'
+				_ = eng.attr.SetHP(info.ModifyAttribute{Key: "verif-life", Target: t, Source: t, Amount: op.Flt("amt")}, false)
 			case "mutsnap":
 				// change a stats snapshot handed out by the engine; must not reach the unit
 				st := eng.attr.Stats(t)
@@ -678,6 +681,9 @@ func (modComp) Gen(r *rand.Rand, tier string, n int) []*wire.Case {
 		add(1, 27, 1, 0, 2, ""), add(1, 27, 2, 0, 2, ""), add(1, 27, 3, 0, 2, ""), wire.R("extcnt").I("t", 1).I("name", 27).I("n", 1))
 	mk("d-stats", add(1, 3, 1, 0, 0, atk), add(1, 3, 2, 0, 0, atk+"|"+red), add(1, 24, 1, 0, 0, ""), add(1, 19, 1, 0, 0, ""), add(1, 19, 1, 0, 0, ""), wire.R("rm").I("t", 1).I("name", 3),
 		wire.R("mutsnap").I("t", 1).I("p", int(prop.ATKPercent)).F("x", 5), wire.R("rm").I("t", 1).I("name", 19))
+	// a unit that has died keeps its instances, and its stats keep their contributions (properties, weaknesses, flags, counts, resistances)
+	mk("d-stats-of-the-dead", add(1, 3, 1, 0, 0, atk+"|"+red).S("weak", "4:1").S("dres", "100:"+wire.FStr(0.25)), add(1, 7, 1, 0, 0, ""), add(2, 3, 1, 0, 0, atk), wire.R("life").I("t", 1).F("amt", 0),
+		add(1, 10, 2, 0, 0, flat), wire.R("life").I("t", 1).F("amt", 500), wire.R("rm").I("t", 1).I("name", 3), wire.R("life").I("t", 2).F("amt", 1), wire.R("life").I("t", 3).F("amt", 0))
 	mk("d-weakness-union", add(1, 3, 1, 0, 0, "").S("weak", "4:1"), add(1, 10, 1, 0, 0, "").S("weak", "4:0|5:1"), add(2, 3, 1, 0, 0, "").S("weak", "6:1"), add(2, 10, 1, 0, 0, "").S("weak", "2:0"),
 		add(3, 3, 1, 0, 0, "").S("weak", "2:0|3:1"), add(3, 10, 1, 0, 0, "").S("weak", "2:1"), wire.R("rm").I("t", 1).I("name", 3), wire.R("rm").I("t", 3).I("name", 10))
 	// resist roll: source's hit rate, target's resistance, resistance by the shape's flags; the roll equal to the chance resists
@@ -788,6 +794,12 @@ func (modComp) Gen(r *rand.Rand, tier string, n int) []*wire.Case {
 					default:
 						ops = append(ops, wire.R("instprop").I("t", t).I("uid", 1+r.Intn(adds+1)).I("p", pick(r, int(prop.ATKPercent), int(prop.AllDamageReduce), int(prop.CritChance))).F("x", pick(r, 0.1, 0.3)))
 					}
+				}
+			case 15:
+				if r.Intn(3) == 0 {
+					ops = append(ops, wire.R("life").I("t", t).F("amt", pick(r, 0.0, 0, 1, 500)))
+				} else {
+					ops = append(ops, wire.R("mutsnap").I("t", t).I("p", int(prop.ATKPercent)).F("x", 3))
 				}
 			default:
 				ops = append(ops, wire.R("mutsnap").I("t", t).I("p", int(prop.ATKPercent)).F("x", 3))
